@@ -421,7 +421,7 @@ Qed.
 Theorem model_meets_spec t now ch f : wf t -> in_domain ch f = true ->
   spec_step t now ch f (obs_of_result (step_repo t now ch f)) = true.
 Proof.
-  intros Hwf D. destruct f as [v|ru v|ic|ic|vs|os v|ru b vs|ru tgt v]; [| | | |discriminate D|discriminate D|discriminate D|discriminate D].
+  intros Hwf D. destruct f as [v|ru v|ic|ic|vs|os v|ru b vs|ru tgt v|v|vs|ru v|i rg a q]; try discriminate D.
   - apply save_meets_spec, Hwf.
   - apply upsert_meets_spec, Hwf.
   - cbn [in_domain] in D. repeat (apply andb_prop in D; destruct D as [D ?]).
